@@ -451,14 +451,38 @@ def render_track_body(rng: random.Random, tr: dict, hostile: bool = False, pad: 
 
 
 # ------------------------------------------------------------------------------------------ whole charts
-def render_sections(sections: list[tuple[str, list[str]]], newline: str = "\n") -> str:
+def render_sections(sections: list[tuple[str, list[str]]], newline: str = "\n", final: bool = True) -> str:
+    """newline "mixed" = every line ends in LF or in CRLF, alternating irregularly (files that went through several editors);
+    final=False = no line terminator after the last brace"""
     out = []
     for name, body in sections:
         out.append(f"[{name}]")
         out.append("{")
         out.extend(body)
         out.append("}")
-    return newline.join(out) + newline
+    if newline == "mixed":
+        text = "".join(ln + ("\r\n" if (i * 7 + len(ln)) % 3 == 0 else "\n") for i, ln in enumerate(out))
+    else:
+        text = newline.join(out) + newline
+    if not final:
+        text = text[:-2] if text.endswith("\r\n") else text[:-1]
+    return text
+
+
+def split_sections(text: str) -> list:
+    """inverse of render_sections for texts it rendered (used by replays)"""
+    secs, name, body = [], None, None
+    for ln in text.splitlines():
+        if body is None and ln.startswith("[") and ln.endswith("]"):
+            name = ln[1:-1]
+        elif body is None and ln == "{":
+            body = []
+        elif body is not None and ln == "}":
+            secs.append([name, body])
+            name, body = None, None
+        elif body is not None:
+            body.append(ln)
+    return secs
 
 
 def gen_chart(rng: random.Random, profile: str = "realistic", *, n_tempos: int | None = None,
@@ -498,11 +522,13 @@ def gen_chart(rng: random.Random, profile: str = "realistic", *, n_tempos: int |
         sections.append((header(inst, diff), body))
     if shuffle_sections and rng.random() < 0.5:
         rng.shuffle(sections)
+    final = True
     if newline is None:
-        newline = "\r\n" if rng.random() < 0.3 else "\n"
+        newline = rng.choice(["\n"] * 6 + ["\r\n"] * 3 + ["mixed"])
+        final = rng.random() < 0.85
     truth = {"resolution": res, "metadata": md, "tempos": tempos, "timesigs": timesigs, "anchors": anchors,
              "globals": globals_, "tracks": tracks}
-    return {"text": render_sections(sections, newline), "truth": truth,
+    return {"text": render_sections(sections, newline, final), "truth": truth,
             "sections": [[n, b] for n, b in sections], "profile": profile, "horizon": horizon}
 
 
